@@ -700,6 +700,41 @@ func (e *CEnv) call(n *ECall) Val {
 		case "floor":
 			v := e.eval(n.Args[0])
 			return Val{T: tInt, Tm: c.ToIntFloor(v.Tm)}
+		case "loglen": // loglen("name"): number of entries of a ghost log
+			name := n.Args[0].(*EStr).V
+			return Val{T: tInt, Tm: e.ex.logLen(e.st, name)}
+		case "logat": // logat("name", i): i-th entry (an interface value)
+			name := n.Args[0].(*EStr).V
+			arr, _ := e.ex.logKeys(name)
+			i := e.eval(n.Args[1])
+			return Val{T: types.NewInterfaceType(nil, nil), Tm: c.Select(e.ex.heapGet(e.st, arr), i.Tm)}
+		case "fn": // fn("name"): the func value of a package-level function
+			name := n.Args[0].(*EStr).V
+			f := e.ex.Prog.FuncByName(e.pkg, name)
+			if f == nil {
+				e.fail("unknown function %q", name)
+			}
+			return Val{T: f.Type(), Tm: c.IntLit(int64(e.ex.Prog.FuncID(f)))}
+		case "isbound": // isbound(fv, "Method", recv): fv is the method value recv.Method
+			fv := e.eval(n.Args[0])
+			name := n.Args[1].(*EStr).V
+			recv := e.eval(n.Args[2])
+			e.ex.W.C.DeclareFun("closure_fn", []smt.Sort{smt.Int}, smt.Int)
+			e.ex.W.C.DeclareFun("closure_bind0", []smt.Sort{smt.Int}, smt.Int)
+			for _, f := range e.ex.Prog.AddressTaken() {
+				if len(f.FreeVars) == 1 && f.Synthetic != "" {
+					if obj, ok := f.Object().(*types.Func); ok && obj.Name() == name && types.Identical(f.FreeVars[0].Type(), recv.T) {
+						return Val{T: tBool, Tm: c.And(
+							c.Eq(c.App("closure_fn", smt.Int, fv.Tm), c.IntLit(int64(e.ex.Prog.FuncID(e.ex.Prog.BoundTarget(f))))),
+							c.Eq(c.App("closure_bind0", smt.Int, fv.Tm), e.ex.ptrTerm(recv)),
+							c.Lt(c.IntLit(100000000), fv.Tm))}
+					}
+				}
+			}
+			e.fail("no method value %s on %s is ever created", name, recv.T)
+		case "boxed": // boxed(x): the interface value holding x
+			v := e.eval(n.Args[0])
+			return Val{T: types.NewInterfaceType(nil, nil), Tm: e.ex.box(v, e.st)}
 		case "backing": // reference of a slice's backing array
 			v := e.eval(n.Args[0])
 			arr, _, _, _ := e.ex.sliceParts(v.Tm)
